@@ -354,11 +354,17 @@ def obligations(chk, props_file, extra_targets=()):
     vo = props_file[:-2] + ".vo"
     # force re-check of the property file itself so that its output is captured
     with coq_lock():
-        try:
-            os.remove(os.path.join(COQ, vo))
-        except OSError:
-            pass
         ok, log = coq_make([vo] + list(extra_targets))
+    if ok:
+        # the property file is compiled once more, into a private output, to capture what it prints (Print Assumptions under every
+        # theorem); the shared .vo is never removed, so checks running at the same time (and coqchk) always find it
+        tmpdir = os.path.join(BUILD, "props", str(os.getpid()))
+        os.makedirs(tmpdir, exist_ok=True)
+        tmpvo = os.path.join(tmpdir, os.path.basename(vo))       # coqc wants the same file name, the directory may differ
+        rc, log = run(["coqc", "-q", "-R", ".", "PanVerif", "-w", "-notation-overridden,-deprecated-hint-without-locality,-deprecated-instance-without-locality",
+                       "-noglob", "-o", tmpvo, props_file], cwd=COQ, timeout=1800)
+        ok = rc == 0
+        shutil.rmtree(tmpdir, ignore_errors=True)
     src = strip_comments(open(os.path.join(COQ, props_file)).read())
     thms = re.findall(r"^\s*(?:Theorem|Lemma)\s+(\w+)", src, re.M)
     chk.cov["obligations"] += len(thms)
